@@ -3,6 +3,8 @@ import MobiusModel.Spec.Governing
 import MobiusModel.Spec.Tables
 import MobiusModel.Generated.AccessYaml
 import MobiusModel.Generated.Consts
+import MobiusModel.TranslatedTies
+import MobiusModel.AccountEdit
 /-!
   C16 — A privilege bit means the same on the wire, in memory and on disk.
 
@@ -126,5 +128,71 @@ example : wire (ofBits [0, 9, 40]) = [0x80, 0x40, 0, 0, 0, 0x80, 0, 0] := by dec
 theorem one_numbering (b : AccessBitmap) (i j : Nat) (hi : i < 64) (hj : j < 64) :
     (b.set i).isSet j = true ↔ i = j ∨ b.isSet j = true :=
   isSet_set b i j hi hj
+
+/-! ### Wave d: the privilege bytes of an account EDIT — request bytes, memory, file, restart -/
+
+/-- The 8 privilege bytes of an update-user sub-record — sent as bytes inside a data field, in any position
+    among its sub-fields, next to sub-fields of any size a field can carry — are the account's privileges in
+    memory and in the file afterwards; in the file's named form they load back to exactly their defined
+    privileges (so wire, memory, file and restart agree on every defined privilege). -/
+theorem edited_privileges_are_the_bytes_sent {H : Type} (env : Accounts.Env H) (fs : List Field)
+    (st : Accounts.State H) (hi : Accounts.Inv st) (hwf : ∀ f ∈ fs, f.WF) (hcnt : fs.length < 65536)
+    (hn1 : fs.length ≠ 1) (lg nm ac : Bytes) (hlg : Accounts.getField 105 fs = some lg)
+    (hnm : Accounts.getField 102 fs = some nm) (hac : Accounts.getField 110 fs = some ac) (h8 : ac.length = 8)
+    (acc : Accounts.Account H) (hacc : st.mem.get (Accounts.accountToUpdate fs (obfuscate lg)) = some acc)
+    (hold : acc.access.length ≤ 8) (hleg : Accounts.LegalLogin (obfuscate lg))
+    (hlen : (obfuscate lg ++ Accounts.yamlExt).length ≤ env.nameMax)
+    (hfree : acc.login ≠ obfuscate lg → st.mem.get (obfuscate lg) = none) :
+    let r := Accounts.updateUserWire env [Accounts.recField fs] st
+    ∃ a', r.1.mem.get (obfuscate lg) = some a' ∧ r.1.disk.get (obfuscate lg ++ Accounts.yamlExt) = some a' ∧
+      a'.access = ac ∧ load T (save T (ofBytes a'.access)) = (ofBytes ac).mask Spec.definedBits := by
+  intro r
+  obtain ⟨a', hm, hd, ha⟩ := Accounts.edit_bytes_reach_memory_and_file env fs st hi hwf hcnt hn1 lg nm ac hlg hnm hac h8
+    acc hacc hold hleg hlen hfree
+  exact ⟨a', hm, hd, ha, by rw [ha, load_save]⟩
+
+/-- After ANY history of account requests in which any step may have been served while the store could not
+    persist (`Accounts.stepF`), every account's privileges in memory are those in its file, and those a
+    restart loads: a failed save never leaves memory ahead of the file. -/
+theorem privileges_same_in_memory_and_file {H : Type} (env : Accounts.Env H) (st : Accounts.State H)
+    (h0 : Accounts.Inv st) (ops : List (Accounts.Fault × Accounts.Op)) (hl : ∀ o ∈ ops, Accounts.FLegal o)
+    (l : Accounts.Login) (a : Accounts.Account H) (hm : (Accounts.runF env st ops).mem.get l = some a) :
+    (∃ d, (Accounts.runF env st ops).disk.get (l ++ Accounts.yamlExt) = some d ∧ d.access = a.access) ∧
+    ((Accounts.load (Accounts.runF env st ops).disk).get l).map (·.access) = some a.access :=
+  Accounts.access_mem_eq_disk env st h0 ops hl l a hm
+
+-- non-vacuity: a set-user served under the failing persist leaves memory = file = the old privileges
+example : (Accounts.runF C15.envT C15.st0 [(.tmpBlocked, C15.newB), (.none, C15.newB), (.tmpBlocked, C15.setB)]).mem.get [98]
+    = some ⟨[98], [66], [1, 2], [0, 0, 0, 0, 0, 0, 0, 0]⟩ := by decide
+
+/-! Ties by translation (docs/Translator.md): `isSet` / `set` of the model ARE `(*AccessBitmap).IsSet` /
+    `Set` of /repo's current hotline/access.go, translated to Lean on every check
+    (`Generated/Translated.lean`): equal for every bitmap and every position `0 ≤ i < 64`; the Go
+    code panics (index out of range) exactly for `i ≥ 64` and `i ≤ -8`.  A change of the byte / bit
+    arithmetic in either Go method breaks its theorem. -/
+
+theorem translated_IsSet_is_the_model (b : AccessBitmap) (i : Nat) (hi : i < 64) :
+    Generated.Translated.AccessBitmap_IsSet b.bytes (i : Int) = .ok (b.isSet i) :=
+  TranslatedTies.IsSet_translated b i hi
+
+theorem translated_Set_is_the_model (b : AccessBitmap) (i : Nat) (hi : i < 64) :
+    Generated.Translated.AccessBitmap_Set b.bytes (i : Int) = .ok (b.set i).bytes :=
+  TranslatedTies.Set_translated b i hi
+
+/-- outside `-8 < i < 64` both methods panic; for `-8 < i < 0` (Go's `/` and `%` truncate towards
+    zero) `IsSet` answers false and `Set` changes nothing -/
+theorem translated_IsSet_Set_outside (b : AccessBitmap) :
+    (∀ i : Int, 64 ≤ i ∨ i ≤ -8 →
+      Generated.Translated.AccessBitmap_IsSet b.bytes i = .panic ∧ Generated.Translated.AccessBitmap_Set b.bytes i = .panic) ∧
+    (∀ k : Nat, 0 < k ∧ k < 8 →
+      Generated.Translated.AccessBitmap_IsSet b.bytes (-(k : Int)) = .ok false ∧
+      Generated.Translated.AccessBitmap_Set b.bytes (-(k : Int)) = .ok b.bytes) :=
+  ⟨fun i h => ⟨TranslatedTies.IsSet_panics b i h, TranslatedTies.Set_panics b i h⟩,
+   fun k h => ⟨TranslatedTies.IsSet_small_negative b k h, TranslatedTies.Set_small_negative b k h⟩⟩
+
+-- non-vacuity
+example : Generated.Translated.AccessBitmap_IsSet (AccessBitmap.ofBits [9, 40]).bytes 40 = .ok true := by decide
+example : Generated.Translated.AccessBitmap_Set AccessBitmap.zero.bytes 22 = .ok (AccessBitmap.ofBits [22]).bytes := by decide
+example : Generated.Translated.AccessBitmap_IsSet AccessBitmap.ones.bytes 64 = .panic := by decide
 
 end Mobius.C16
